@@ -2,6 +2,7 @@
 (* C08 - input space of the FLV path (codec.Frame -> flv.Muxer -> Stream.WriteFlvTag -> FlvCache -> flv.Writer):
    a short frame sequence, a time base (so that 24-bit and 32-bit millisecond boundaries are crossed), the
    composition offset of the video frames (PTS ahead of, equal to, or behind DTS), payload size classes, cache_gop,
+   the video codec (AVC / HEVC),
    and the position at which the FLV client joins.                                                  *)
 EXTENDS Naturals, Sequences, FiniteSets, TLC, Json
 CONSTANTS MaxLen
@@ -9,12 +10,13 @@ Kinds == {"key", "non", "aud"}
 Bases == {"zero", "b24", "b32"}          \* 0 ; just below 2^24 ms ; just below 2^32 ms
 Ctos == {"zero", "ahead", "behind"}      \* PTS - DTS of video frames: 0, +80 ms, -40 ms
 Sizes == {"s1", "s2", "s64k", "sbig"}    \* 1, 2, 65535, 70000 payload bytes
+Codecs == {"h264", "h265"}
 Seqs == UNION {[1..n -> Kinds] : n \in 1..MaxLen}
 VARIABLE c
-Init == \E s \in Seqs, b \in Bases, o \in Ctos, z \in Sizes, g \in BOOLEAN, j \in 0..MaxLen :
+Init == \E s \in Seqs, v \in Codecs, b \in Bases, o \in Ctos, z \in Sizes, g \in BOOLEAN, j \in 0..MaxLen :
           /\ j <= Len(s)
           /\ s[1] = "key"                                   \* a stream starts with a key frame
-          /\ c = [frames |-> s, base |-> b, cto |-> o, size |-> z, cachegop |-> g, join |-> j]
+          /\ c = [frames |-> s, base |-> b, cto |-> o, size |-> z, cachegop |-> g, join |-> j, codec |-> v]
 Next == UNCHANGED c
 Emit == PrintT(<<"@F", ToJson(c)>>)
 ================================================================================
